@@ -8,7 +8,7 @@ The run-time order per request is not decided.
 from ..facts import callee, op_place, strip_generics
 from ..flow import Defs, backward_slice, slice_calls, forward_derived
 from ..quote import chains
-from .chains_common import chain_snapshots, chain_only_pushed, A, BP
+from .chains_common import chain_snapshots, chain_only_pushed, chain_always_pushed, A, BP
 from .compiler_common import PX
 
 LEVEL = 'other'
@@ -26,6 +26,7 @@ def r1_snapshots(ctx):
              'NestedBlueprint arm of the component loop from a clone of the chain taken in that arm.')
     chain_only_pushed(ctx, 'C05.R1')
     chain_snapshots(ctx, 'C05.R1', 'current_middleware_chain', 'middleware chain')
+    chain_always_pushed(ctx, 'C05.R1', ['process_middleware', 'process_pre_processing_middleware', 'process_post_processing_middleware'], 'middleware chain')
 
 
 def r2_chain_per_handler(ctx):
